@@ -50,6 +50,8 @@ class FunctionReport:
                 d['cex'] = d['cex'] or ob
             elif ob.result == 'unknown' and d['result'] != 'refuted':
                 d['result'] = 'unknown'
+                if getattr(ob, 'candidate', False) and d['cex'] is None:
+                    d['cex'] = ob
         return out
 
 
@@ -90,17 +92,30 @@ def setup_path(world, contract, ex, ctx, prefix):
     return p, it
 
 
+class OldState:
+    """Evaluate in the pre-state (environment, heap, ghost state, heap epoch)."""
+
+    def __init__(self, it):
+        self.it = it
+
+    def __enter__(self):
+        it = self.it
+        self.saved = (it.env, it.p.heap, it.p.globals, it.p.heap_epoch)
+        it.env, it.p.heap, it.p.globals = dict(it.old_env), dict(it.old_heap), dict(it.old_globals)
+        it.p.heap_epoch = getattr(it, 'old_epoch', it.p.heap_epoch)
+
+    def __exit__(self, *a):
+        it = self.it
+        it.env, it.p.heap, it.p.globals, it.p.heap_epoch = self.saved
+
+
 def weaken(it, contract, label, goal):
     """Known findings: obligation is proved for every input outside the listed class."""
     guards = getattr(contract, 'known_guards', {}).get(label)
     if not guards:
         return goal
-    saved = (it.env, it.p.heap, it.p.globals)
-    it.env, it.p.heap, it.p.globals = dict(it.old_env), dict(it.old_heap), dict(it.old_globals)
-    try:
+    with OldState(it):
         gs = [it.truth(it.eval_text(g)) for g in guards]
-    finally:
-        it.env, it.p.heap, it.p.globals = saved
     return z3.Or(goal, *gs)
 
 
@@ -128,15 +143,11 @@ def frame_check(world, contract, it, p, ex):
             continue
         exprs = at.get(key) or [e for k2, es in at.items() if k2.split('.')[1] == f for e in es]
         if exprs:
-            saved = (it.env, p.heap, p.globals)
-            it.env, p.heap, p.globals = dict(it.old_env), dict(it.old_heap), dict(it.old_globals)
-            try:
+            with OldState(it):
                 refs = []
                 for e in exprs:
                     v = it.eval_text(e)
                     refs.append(K.opt_inner(v).t if isinstance(v.kind, K.Opt) else v.t)
-            finally:
-                it.env, p.heap, p.globals = saved
             r = p.fresh('frame!r', z3.IntSort())
             goal = z3.ForAll([r], z3.Implies(
                 z3.And(r > 0, r < it.old_alloc, *[r != x for x in refs]),
@@ -194,13 +205,12 @@ def run_path(world, contract, ex, ctx, prefix, report):
             for ek, cond in contract.raises.items():
                 if world.exc_is(exc.kind, ek):
                     allowed = True
+                    if cond is True:
+                        it.check(z3.BoolVal(True), 'raises-allowed[%s]' % ek,
+                                 'exception is one the contract allows unconditionally', ex.node)
                     if cond is not True:
-                        saved = (it.env, p.heap, p.globals)
-                        it.env, p.heap, p.globals = dict(it.old_env), dict(it.old_heap), dict(it.old_globals)
-                        try:
+                        with OldState(it):
                             g = it.truth(it.eval_text(cond))
-                        finally:
-                            it.env, p.heap, p.globals = saved
                         it.check(g, 'raises[%s]' % ek, 'exception only under its condition', ex.node)
             if not allowed:
                 it.check(weaken(it, contract, 'no-unexpected-exception[%s]' % exc.kind, z3.BoolVal(False)),
@@ -312,8 +322,37 @@ def discharge(ob, timeout_ms):
     else:
         ob.result = 'unknown'
         ob.reason = s.reason_unknown()
+        # candidate counter-model from the quantifier-free part of the hypotheses: possibly spurious,
+        # so it only ever counts after the replay adapter reproduces it on the real code
+        try:
+            s2 = z3.Solver()
+            s2.set('timeout', 5000)
+            for h in ob.hyps:
+                if not _has_quantifier(h):
+                    s2.add(h)
+            if not _has_quantifier(g):
+                s2.add(z3.Not(g))
+            if s2.check() == z3.sat:
+                ob.model = s2.model()
+                ob.candidate = True
+        except z3.Z3Exception:
+            pass
     ob.ms = int((time.time() - t0) * 1000)
     ob.smt2_head = None
+
+
+def _has_quantifier(t):
+    todo, n = [t], 0
+    while todo:
+        x = todo.pop()
+        n += 1
+        if z3.is_quantifier(x):
+            return True
+        if n > 5000:
+            return True
+        if z3.is_app(x):
+            todo += x.children()
+    return False
 
 
 def cvc5_check(solver, timeout_ms):
